@@ -114,6 +114,14 @@ Theorem C20_new_from : forall ops ty s h' r,
 Proof. exact new_from_all_histories. Qed.
 Print Assumptions C20_new_from.
 
+(* ... and it succeeds exactly when every given object passes the type check *)
+Theorem C20_new_from_decides : forall ops ty s h' r,
+  noc_new_from (run [] ops) ty s = (h', r) ->
+  (Forall (fun o => issub (ocls o) ty = true) s -> exists c, r = Ok c)
+  /\ (forall e, r = Err e -> e = TypeError /\ ~ Forall (fun o => issub (ocls o) ty = true) s).
+Proof. exact new_from_decides. Qed.
+Print Assumptions C20_new_from_decides.
+
 (* the element type check of add / += / + / the constructor: after any history a
    collection holds only instances of (subclasses of) its obj_type *)
 Theorem C20_typed : forall ops i ty l d,
@@ -286,6 +294,22 @@ Theorem C20_config_new_is_base : forall fuel ops w',
     /\ forall f, tree_of f (wst w') (VRef root) = tree_of f (wst w) (VRef base).
 Proof. exact new_config_is_base. Qed.
 Print Assumptions C20_config_new_is_base.
+
+(* Config.from_dict(d) after any history: the new instance's content is the base
+   content with the top-level items of d written over it (dict.update of the two
+   contents; the sub-dictionaries of d replace those of the base as a whole) *)
+Theorem C20_config_from_dict_content : forall fuel ops u w',
+  let w := wrun fuel w0 ops in
+  wstep fuel w (WFromDict u) = (w', Ok tt) ->
+  exists base ur root,
+    nth_error (wusers w) 0 = Some base /\ nth_error (wusers w) u = Some ur
+    /\ winsts w' = winsts w ++ [root] /\ wusers w' = wusers w
+    /\ forall f eb eu,
+         tree_of (S f) (wst w) (VRef base) = Ok (TNode eb) ->
+         tree_of (S f) (wst w) (VRef ur) = Ok (TNode eu) ->
+         tree_of (S f) (wst w') (VRef root) = Ok (TNode (od_update eb eu)).
+Proof. exact from_dict_content. Qed.
+Print Assumptions C20_config_from_dict_content.
 
 (* composition: an instance is a private snapshot of the base configuration at its
    creation time — whatever later happens to the base, to user dictionaries and
